@@ -280,6 +280,161 @@ def judge(chk, bad, stats):
             chk.violation(dict(rp, what="DefaultSettings::default() / field list differs from the model's schema"))
 
 
+# ------------------------------------------------------------------ model-side structural mutants
+def settings_object(defaults_rec):
+    """the full settings object of a saved file, rebuilt from the schema (names + defaults; the
+    record is checked against the model's schema inside Coq by chk_defaults)"""
+    import re
+    vals = re.findall(r'(VU (\d+)%N|VF ([^;\]]+)|VB (true|false)|VS "((?:[^"]|"")*)"%string)', defaults_rec["settings"])
+    obj = {}
+    for name, (_, u, f, bb, st) in zip(defaults_rec["names"], vals):
+        if u:
+            obj[name] = int(u)
+        elif f:
+            f = f.strip()
+            if f == "infinity":
+                obj[name] = 1.7976931348623157e308
+            else:
+                m = re.match(r"\((-?)0x([0-9a-f]+)p([-+]\d+)\)%float", f)
+                obj[name] = float.fromhex("%s0x%sp%s" % (m.group(1), m.group(2), m.group(3))) if m else float(f.replace("%float", "").strip("()"))
+        elif bb:
+            obj[name] = (bb == "true")
+        else:
+            obj[name] = st
+    obj["verbose"] = False
+    return obj
+
+
+def model_bases(settings):
+    """one valid document per cone variant (n = 1) and one with every variant and the full settings"""
+    def csc(m, n, colptr, rowval, nzval):
+        return {"m": m, "n": n, "colptr": colptr, "rowval": rowval, "nzval": nzval}
+
+    def doc(cones, m, sett):
+        rows = list(range(0, m, 2))
+        d = {"P": csc(1, 1, [0, 1], [0], [2.0]), "q": [1.0],
+             "A": csc(m, 1, [0, len(rows)], rows, [1.0 + 0.5 * i for i in range(len(rows))]),
+             "b": [1.0 + 0.25 * i for i in range(m)], "cones": cones}
+        if sett is not None:
+            d["settings"] = sett
+        return d
+    small = {"verbose": False, "max_iter": 50, "time_limit": 1.7976931348623157e308, "direct_solve_method": "qdldl", "tol_feas": 1e-7}
+    variants = [("zero", {"ZeroConeT": 2}, 2), ("nonneg", {"NonnegativeConeT": 2}, 2), ("soc", {"SecondOrderConeT": 3}, 3),
+                ("exp", {"ExponentialConeT": []}, 3), ("pow", {"PowerConeT": 0.25}, 3),
+                ("genpow", {"GenPowerConeT": [[0.5, 0.5], 1]}, 3), ("psd", {"PSDTriangleConeT": 2}, 3)]
+    bases = [("model:" + nm, doc([c], m, small)) for nm, c, m in variants]
+    allc = [c for _, c, _ in variants]
+    bases.append(("model:all", doc(allc, sum(m for _, _, m in variants), settings)))
+    return bases
+
+
+CONE_TAGS = ["ZeroConeT", "NonnegativeConeT", "SecondOrderConeT", "ExponentialConeT", "PowerConeT", "GenPowerConeT", "PSDTriangleConeT"]
+
+
+def kind_of(v):
+    if v is None:
+        return "null"
+    if isinstance(v, bool):
+        return "bool"
+    if isinstance(v, int):
+        return "int"
+    if isinstance(v, float):
+        return "float"
+    if isinstance(v, str):
+        return "str"
+    if isinstance(v, list):
+        return "arr"
+    return "obj"
+
+
+def ast_mutants(root):
+    """every structural mutant of a document, path by path: (description, mutated document)"""
+    import copy
+    retypes = [("null", None), ("bool", True), ("int", 1), ("float", 1.5), ("str", "x"), ("arr", []), ("obj", {})]
+    out = []
+
+    def paths(v, cur):
+        yield cur
+        if isinstance(v, list):
+            for i, x in enumerate(v):
+                yield from paths(x, cur + [i])
+        elif isinstance(v, dict):
+            for k, x in v.items():
+                yield from paths(x, cur + [k])
+
+    def get(v, p):
+        for k in p:
+            v = v[k]
+        return v
+
+    def put(p, val, what):
+        d = copy.deepcopy(root)
+        if not p:
+            d = val
+        else:
+            get(d, p[:-1])[p[-1]] = val
+        out.append(("%s %s" % (what, json.dumps(p)), d))
+
+    for p in paths(root, []):
+        v = get(root, p)
+        k = kind_of(v)
+        for nm, val in retypes:
+            if nm != k:
+                put(p, copy.deepcopy(val), "retype->%s" % nm)
+        if p:
+            d = copy.deepcopy(root)
+            parent = get(d, p[:-1])
+            del parent[p[-1]]
+            out.append(("remove %s" % json.dumps(p), d))
+        if k in ("int", "float"):
+            for val in (-1, 2 ** 53, 1e300, 0):
+                if val != v:
+                    put(p, val, "number->%r" % val)
+            if k == "int":
+                put(p, v + 1, "int+1")
+                put(p, float(v), "int as float")
+        if k == "arr":
+            if v:
+                put(p, v[:-1], "array truncated")
+                put(p, v + [copy.deepcopy(v[-1])], "array extended")
+            else:
+                put(p, [0], "array extended")
+        if k == "obj":
+            for key in list(v.keys()):
+                d = copy.deepcopy(root)
+                o = get(d, p)
+                renamed = {}
+                for kk, vv in o.items():
+                    renamed[kk + "_" if kk == key else kk] = vv
+                if p:
+                    get(d, p[:-1])[p[-1]] = renamed
+                else:
+                    d = renamed
+                out.append(("rename key %s at %s" % (key, json.dumps(p)), d))
+                if key in CONE_TAGS:
+                    for t in CONE_TAGS + ["zeroconet", "Cone"]:
+                        if t != key:
+                            d = copy.deepcopy(root)
+                            get(d, p[:-1])[p[-1]] = {t: v[key]}
+                            out.append(("cone tag %s -> %s at %s" % (key, t, json.dumps(p)), d))
+    return out
+
+
+def model_side_cases(defaults_rec, thorough):
+    cases, seen = [], set()
+    for name, base in model_bases(settings_object(defaults_rec)):
+        text0 = json.dumps(base, separators=(",", ":"))
+        seen.add(text0)
+        cases.append({"kind": "fault", "base": name, "mut": "unchanged", "text": text0})
+        for what, d in ast_mutants(base):
+            text = json.dumps(d, separators=(",", ":"))
+            if text in seen:
+                continue
+            seen.add(text)
+            cases.append({"kind": "fault", "base": name, "mut": what, "text": text})
+    return cases
+
+
 EXPLANATION = ("Coq theorems about a Gallina model of everything Clarabel adds on top of serde_json: decode(encode p) = Ok p for all "
                "problems with finite numbers, settings round trip incl. time_limit = inf, save undoes equilibration over any field, "
                "bit-exact save when scaling is the identity, override wins, load never panics (false of the code before the fix: "
@@ -331,6 +486,24 @@ def run(chk, replay=None):
             for r in rr:
                 if "stats" in r:
                     hstats = r["stats"]
+        drec = [r for r in recs if r.get("kind") == "defaults"]
+        if not replay and drec:
+            # structural mutants generated on the AST side, field by field, for every cone variant
+            mcases = model_side_cases(drec[0], chk.tier == "thorough")
+            mf = os.path.join(chk.wdir, "model_side_mutants.json")
+            json.dump({"cases": mcases}, open(mf, "w"))
+            rc, out2, rr = chk.run_harness(["--seed", str(chk.seed), "--tier", chk.tier, "--replay", mf], "cases_%s_modelside.jsonl" % pid, timeout=3000, bin="c19")
+            if rc != 0:
+                broken.append("harness run (model-side mutants) failed rc=%d: %s" % (rc, out2[-800:]))
+            rr = [r for r in rr if r.get("kind") == "fault"]
+            stats["model_side_mutants"] = len(rr)
+            stats["model_side_ok"] = len([r for r in rr if r["observed"] == "ok"])
+            if len(rr) != len({c["text"] for c in mcases}):
+                broken.append("model-side mutants: %d generated, %d loaded" % (len(mcases), len(rr)))
+            unchanged_bad = [r["base"] for r in rr if r["mut"] == "unchanged" and r["observed"] != "ok"]
+            if unchanged_bad:
+                broken.append("model-side base documents do not load: %s" % unchanged_bad)
+            recs.extend(rr)
     cases = process(chk, recs, stats)
     bad, errors = ([], [])
     if ok and cases:
